@@ -249,6 +249,7 @@ func runWorker(bin, prop, tier string, seed uint64, from, stride int64, deadline
 		sc := bufio.NewScanner(stdout)
 		sc.Buffer(make([]byte, 1<<20), 64<<20)
 		n := int64(0)
+		var badLine error
 		for sc.Scan() {
 			line := sc.Bytes()
 			if len(line) == 0 || line[0] != '{' {
@@ -256,7 +257,9 @@ func runWorker(bin, prop, tier string, seed uint64, from, stride int64, deadline
 			}
 			var o Outcome
 			if err := json.Unmarshal(line, &o); err != nil {
-				return fmt.Errorf("bad worker output: %v: %.200s", err, line)
+				// a worker halted by the race detector may leave a truncated last line
+				badLine = fmt.Errorf("bad worker output: %v: %.200s", err, line)
+				continue
 			}
 			a.add(&o)
 			n++
@@ -265,7 +268,11 @@ func runWorker(bin, prop, tier string, seed uint64, from, stride int64, deadline
 		killer.Stop()
 		es := stderr.String()
 		if race && strings.Contains(es, "WARNING: DATA RACE") {
-			// the detector halts the worker at the first report: the run in progress is the one after the last outcome
+			// the detector halts the worker at the first report: the run in progress is the one after the last
+			// outcome (a truncated last line is a run that had completed)
+			if badLine != nil {
+				n++
+			}
 			idx := next + n*stride
 			sig, rep := raceSignature(es)
 			o := &Outcome{Seed: 0, Index: idx, Prop: prop, Family: "race", Verdict: "violation", Kernel: "race", Nontrivial: true,
@@ -274,6 +281,9 @@ func runWorker(bin, prop, tier string, seed uint64, from, stride int64, deadline
 			done += n + 1
 			next = idx + stride
 			continue
+		}
+		if badLine != nil {
+			return badLine
 		}
 		if err != nil {
 			return fmt.Errorf("worker failed (from=%d): %v\n%s", next, err, tail(es, 4000))
@@ -558,7 +568,7 @@ func main() {
 			infra("determinism re-run: %v", err)
 		}
 		for idx, h := range b.hashByIdx {
-			if h0, ok := a.hashByIdx[idx]; ok {
+			if h0, ok := a.hashByIdx[idx]; ok && h0 != 0 && h != 0 { // hash 0: run cut short by a race report
 				detChecked++
 				if h0 != h {
 					detBad++
